@@ -602,11 +602,72 @@ fn guarded_poller(rep: &mut Report, rounds: usize) {
     });
 }
 
-/// End to end on the real filesystem source and its OS watcher: edits on disk,
-/// a sentinel file as logical barrier (inotify and both channels are FIFO),
-/// then every cached asset must equal a fresh load by a second, plain cache.
+/// The real `FileSystem` source, with the watcher's messages relayed through the harness on
+/// their way to the cache (hook H-B): the relay forwards every message unchanged and remembers
+/// what it forwarded, which gives a *logical* barrier - "the message that names this step's
+/// unique marker file was forwarded as the F-th one and the reloader has handled F messages"
+/// (hook H-A) - instead of a content-based one. (The first version waited until a sentinel
+/// asset showed the content just written; a notification left over from the previous step
+/// could trigger the sentinel's reload, which then read the *new* content, and the barrier was
+/// passed before this step's own notifications had been handled: under load that produced
+/// false "stale" reports.)
+struct RelayFs {
+    fs: assets_manager::source::FileSystem,
+    relay: std::sync::Arc<Relay>,
+}
+
+#[derive(Default)]
+struct Relay {
+    /// entries of every forwarded message, in order
+    forwarded: std::sync::Mutex<Vec<Vec<assets_manager::source::OwnedDirEntry>>>,
+    stop: std::sync::atomic::AtomicBool,
+}
+
+impl assets_manager::source::Source for RelayFs {
+    fn read(&self, id: &str, ext: &str) -> std::io::Result<assets_manager::source::FileContent<'_>> {
+        self.fs.read(id, ext)
+    }
+    fn read_dir(&self, id: &str, f: &mut dyn FnMut(assets_manager::source::DirEntry)) -> std::io::Result<()> {
+        self.fs.read_dir(id, f)
+    }
+    fn exists(&self, e: assets_manager::source::DirEntry) -> bool {
+        self.fs.exists(e)
+    }
+    fn make_source(&self) -> Option<Box<dyn assets_manager::source::Source + Send>> {
+        Some(Box::new(RelayFs { fs: self.fs.clone(), relay: self.relay.clone() }))
+    }
+    fn configure_hot_reloading(&self, events: assets_manager::hot_reloading::EventSender) -> Result<(), assets_manager::BoxedError> {
+        use assets_manager::hot_reloading::verif::event_channel;
+        let (tx, rx) = event_channel();
+        let mut b = assets_manager::hot_reloading::FsWatcherBuilder::new()?;
+        b.watch(self.fs.root().to_owned())?;
+        b.build(tx);
+        let relay = self.relay.clone();
+        std::thread::Builder::new().name("vh_relay".into()).spawn(move || loop {
+            match rx.recv_timeout(std::time::Duration::from_millis(20)) {
+                Some(msg) => {
+                    // remember first: `forwarded.len()` is then an upper bound of what the cache got
+                    relay.forwarded.lock().unwrap().push(msg.clone());
+                    if events.send_multiple(msg).is_err() {
+                        break;
+                    }
+                }
+                None => {
+                    if relay.stop.load(std::sync::atomic::Ordering::SeqCst) {
+                        break;
+                    }
+                }
+            }
+        })?;
+        Ok(())
+    }
+}
+
+/// End to end on the real filesystem source and its OS watcher: edits on disk, a marker file
+/// with a name of its own per step as logical barrier (see `RelayFs`), then every cached asset
+/// must equal a fresh load by a second, plain cache.
 fn real_filesystem(rep: &mut Report, rng: &mut Rng, rounds: usize) {
-    use assets_manager::source::FileSystem;
+    use assets_manager::source::{FileSystem, OwnedDirEntry};
     use assets_manager::AssetCache;
     for round in 0..rounds {
         rep.eval();
@@ -622,14 +683,16 @@ fn real_filesystem(rep: &mut Report, rng: &mut Rng, rounds: usize) {
         w("g/x1.n0", "load L10t l.y1 file l.y2 a");
         w("g/x0.n0", "load N0 g.x1 load L10t l.y0 load D:a l");
         w("g/x2.n0", "iter D:a l owned N0 g.x1");
-        w("s/probe.a", "s0");
-        let cache = match AssetCache::new(&dir) {
-            Ok(c) => c,
+        w("s/start.a", "s0");
+        let fs = match FileSystem::new(&dir) {
+            Ok(f) => f,
             Err(e) => {
                 rep.inconclusive(&format!("cannot open the scratch directory: {e}"));
                 return;
             }
         };
+        let relay = std::sync::Arc::new(Relay::default());
+        let cache = AssetCache::with_source(RelayFs { fs, relay: relay.clone() });
         if !cache.as_any_cache().is_hot_reloaded() {
             rep.inconclusive("the filesystem watcher did not start");
             return;
@@ -639,10 +702,10 @@ fn real_filesystem(rep: &mut Report, rng: &mut Rng, rounds: usize) {
         for (ty, id) in &keys {
             let _ = op_load(cache.as_any_cache(), *ty, id);
         }
-        let probe = cache.load::<Leaf<1, 0, true>>("s.probe").expect("probe");
         let mut steps = vec![];
         let nsteps = rng.range(2, 6);
         let mut extra = 0;
+        let mut ok = true;
         for step in 0..nsteps {
             let what = match rng.below(6) {
                 0 | 1 => {
@@ -670,21 +733,34 @@ fn real_filesystem(rep: &mut Report, rng: &mut Rng, rounds: usize) {
                     "rewrite g/x1.n0".to_string()
                 }
             };
-            steps.push(what);
-            // logical barrier: the sentinel's own reload can only be observed after
-            // every earlier notification was delivered and handled
-            let mark = format!("s{}-{}", round, step + 1);
-            w("s/probe.a", &mark);
-            let want = content_hash(mark.as_bytes());
-            let reached = crate::util::wait_until(60_000, || {
-                cache.hot_reload();
-                matches!(&probe.read().v, V::Leaf { hash, .. } if *hash == want)
-            });
-            if !reached {
-                rep.inconclusive("real filesystem: the sentinel edit was not picked up within 60 s");
-                let _ = std::fs::remove_dir_all(&dir);
-                return;
+            if std::env::var_os("VH_TRACE").is_some() {
+                eprintln!("STEP round {round} step {step}: {what}");
             }
+            steps.push(what);
+            // logical barrier: a marker file whose name belongs to this step; every notification
+            // that names it was produced after this step's edits (inotify, the handler and both
+            // channels are FIFO)
+            let marker = format!("done{step}");
+            w(&format!("s/{marker}.a"), "m");
+            let marker_id = format!("s.{marker}");
+            let mut upto = 0usize;
+            let seen = crate::util::wait_until(60_000, || {
+                let f = relay.forwarded.lock().unwrap();
+                match f.iter().position(|m| m.iter().any(|e| matches!(e, OwnedDirEntry::File(id, _) if id.as_str() == marker_id))) {
+                    Some(i) => {
+                        upto = i + 1;
+                        true
+                    }
+                    None => false,
+                }
+            });
+            let handled = seen && crate::util::wait_until(60_000, || cache.verif_events_handled().is_some_and(|h| h >= upto));
+            if !handled {
+                rep.inconclusive("real filesystem: the marker notification was not delivered and handled within 60 s");
+                ok = false;
+                break;
+            }
+            cache.hot_reload();
             // compare with a fresh, plain cache over the same directory
             let fresh = AssetCache::without_hot_reloading(FileSystem::new(&dir).expect("fresh source"));
             for (ty, id) in &keys {
@@ -692,23 +768,32 @@ fn real_filesystem(rep: &mut Report, rng: &mut Rng, rounds: usize) {
                 let want = op_load(fresh.as_any_cache(), *ty, id).ok();
                 if let (Some(now), Some(want)) = (&now, &want) {
                     if now != want {
+                        if std::env::var_os("VH_TRACE").is_some() {
+                            eprintln!("STALE round {round} step {step}: {} {id}", ty.tag());
+                        }
                         rep.violation(
                             "stale-after-pass",
                             "C05/real-filesystem:stale-after-pass",
                             json!({"key": format!("{} {id:?}", ty.tag()), "cached": format!("{now:?}"), "fresh_load": format!("{want:?}")}),
-                            json!({"kind": "real filesystem", "round": round, "edits": steps}),
+                            json!({"kind": "real filesystem", "round": round, "edits": steps, "messages_forwarded_up_to_the_marker": upto}),
                         );
                     }
                 }
             }
             rep.count("real_fs_steps", 1);
         }
-        rep.nontrivial(fnv_str(&format!("{steps:?}")));
+        if ok {
+            rep.nontrivial(fnv_str(&format!("{steps:?}")));
+        }
         if round == 0 {
             rep.sample(json!({"kind": "real filesystem history", "edits": steps}));
         }
+        relay.stop.store(true, std::sync::atomic::Ordering::SeqCst);
         drop(cache);
         let _ = std::fs::remove_dir_all(&dir);
+        if !ok {
+            return;
+        }
     }
 }
 
